@@ -30,6 +30,10 @@ PROPS = {
             "rule": "one case per Eval state of Prox.tla (prox expression tree, alpha, exact point) replayed in every array shape with that many elements, real and complex dtype, plus curated PSD inputs; all are non-trivial (points include zeros, thresholds, boundaries, ties)",
             "assumptions": ["expression trees with <= 1 wrapper (quick) / 2 (thorough) over 38 base configurations", "exact points: rationals and Gaussian rationals with rational moduli", "PSD projection checked on Q D Q^H with rational unitary Q (harness-side exact reference, not TLC)"],
             "trusted": TLC_BASE + ["Rat.tla arithmetic"]},
+    "C12": {"level": "model_checking", "engines": [("cg", "cg", "run")],
+            "rule": "exact tier: one case per TLC state of CG.tla (instance, number of updates) replayed on the real solver; large tier: one recorded run per seeded random system validated as a trace; non-trivial = at least one update performed",
+            "assumptions": ["exact tier: all symmetric integer matrices with entries -1..2 of size 1 and 2 (PD and indefinite), b, x0 in {-1,0,2}^n, diagonal preconditioners, max_iter 1..3 (quick) / 1..4 (thorough)", "large tier thresholds: 1e-6 (A-norm increase, residual gap), 1e-5 (Krylov gap, exactness at n) relative, cond <= 1e3"],
+            "trusted": TLC_BASE + ["Rat.tla arithmetic", "numpy.linalg.solve / lstsq as reference for the large tier"]},
     "C09": {
         "level": "model_checking",
         "engines": [("index_maps", "index_maps", "run")],
@@ -44,6 +48,8 @@ PROPS = {
 HOOK_COMMITS = ["609775d"]
 
 ENGINES = [
+    {"name": "cg", "path": "harness/engines/cg.py + spec/CG.tla, spec/CGTrace.tla", "serves_properties": ["C12", "C15"],
+     "kind_free_text": "TLC over exact rational CG on all small systems + replay; trace validation of larger random runs"},
     {"name": "prox", "path": "harness/engines/prox.py + spec/Prox.tla, Rat.tla", "serves_properties": ["C11", "C02"],
      "kind_free_text": "TLC: closed forms vs optimality conditions over exact points; replay on Prox classes and thresh functions in all shapes"},
     {"name": "poisson", "path": "harness/engines/poisson.py + spec/PoissonSearch.tla, spec/PoissonTrace.tla", "serves_properties": ["C18"],
@@ -90,7 +96,7 @@ MANIFEST_TEXT = {
 }
 
 NOT_APPLICABLE = {p: "check not built yet in this round (planned, see DESIGN.md section 5)" for p in
-                  ["C05", "C06", "C07", "C08", "C10", "C12", "C13", "C14", "C16", "C17", "C19"]}
+                  ["C05", "C06", "C07", "C08", "C10", "C13", "C14", "C16", "C17", "C19"]}
 
 MANIFEST_TEXT["C18"] = {
     "text": "PoissonSearch.tla models the slope bisection on a float lattice with an arbitrary (non-monotone) acceleration function; TLC checks OkIsWithinTol and the liveness property Terminates (the loop without the collapse test is kept as a negative control that must fail). poisson() is run on the real code with _poisson wrapped under a watchdog; every call (probes as slope ranks + integer facts about the mask, RNG state crc, reproducibility memo) is validated by TLC against PoissonTrace.tla.",
@@ -103,3 +109,9 @@ MANIFEST_TEXT["C11"] = {
     "design_ref": "DESIGN.md section 5 C11",
     "note": "Trusted: TLC, Rat.tla, harness builders. Points with irrational moduli are skipped by the exact tier (Eval is disabled when a needed square root is irrational).",
     "technique": "TLA+ closed forms vs optimality predicates (TLC) + spec-to-code replay"}
+
+MANIFEST_TEXT["C12"] = {
+    "text": "CG.tla has an algorithm layer (constructor, _update, _done transcribed, incl. the skipped last residual update and the breakdown flag) and a definition layer (Krylov-optimal iterate by Cramer's rule, x* = A^-1 b) in exact rationals; TLC checks IterateIsKrylovOpt, ErrANonIncreasing, ResidualIsTrue, ExactAtN, BreakdownStops, NoFalseBreakdown on every prefix of every history over all small systems. Every state is replayed on the real solver (A as function and as Linop): x, r, resid^2, flags, done(), caller's array identity. Random real/complex systems of dimension 3-12 with preconditioners are recorded per update (A-norm error, Krylov gap, residual gap) and validated by TLC against CGTrace.tla.",
+    "design_ref": "DESIGN.md section 5 C12",
+    "note": "Trusted: TLC, Rat.tla, numpy reference solves for the large tier (thresholds 1e-6/1e-5 relative with cond <= 1e3).",
+    "technique": "TLA+ exact-rational algorithm vs definition layers (TLC) + replay + trace validation"}
